@@ -41,7 +41,7 @@ var (
 
 // ---- pattern pools -------------------------------------------------------------------------
 
-var literalPieces = []string{"/", "/a", "/b", "/ab", "/abc", "/users", "/posts", "/x", "-", ".", ".html", "/v1", "1", "2", "a", "aa", "b", "/a/", "/b/", "/users/", "/posts/", "/p/", "é", "/日"}
+var literalPieces = []string{"/", "/a", "/b", "/ab", "/abc", "/users", "/posts", "/x", "-", ".", ".html", "/v1", "1", "2", "a", "aa", "b", "/a/", "/b/", "/users/", "/posts/", "/p/"}
 
 var namedTokens = []string{"{id}", "{name}", "{n}", "{-id}", "{x}", "{action}", "{page}", "{na}", "{-n}"}
 var rxTokens = []string{`{id:\d+}`, `{x:\d}`, `{x:\d+}`, `{w:\w+}`, `{p:.+}`, `{p:.*}`, `{s:[a-z]+}`, `{-r:\d+}`, `{c:a|ab}`, `{page:\d+}`, `{y:[0-9]+}`, `{z:\d*}`, `{q:(a|b)c}`, `{t:[^/]+}`}
@@ -71,7 +71,7 @@ func (g *G) pattern(useIc bool) string {
 			sb.WriteString("/")
 		}
 	} else {
-		sb.WriteString(g.pick([]string{"a", "x", "top", "é"}))
+		sb.WriteString(g.pick([]string{"a", "x", "top", "a", "x", "top", "é"}))
 	}
 	nTok := g.intn(4)
 	used := map[string]bool{}
@@ -91,6 +91,9 @@ func (g *G) pattern(useIc bool) string {
 		if suf != "" && g.chance(0.3) {
 			sb.WriteString(g.pick(literalPieces))
 		}
+	}
+	if g.chance(0.03) {
+		sb.WriteString(g.pick([]string{"é", "/日", "\xff"}))
 	}
 	if nTok == 0 && g.chance(0.7) {
 		sb.WriteString(g.pick(literalPieces))
